@@ -440,6 +440,48 @@ fn run_win_item(it: &WinItem, l: &mut Local) {
 }
 
 // ------------------------------------------------------------------------------------------
+// family 6: consistent resizes of inner length-prefixed fields
+
+/// The resize family of one RDATA seed (see `c01::layout`): every resized tree is decoded as a
+/// message, a request, through the front door, by the TSIG parser, as a record and as bare RDATA.
+fn run_resize_item(tag: &str, rtype: u16, wire: &[u8], l: &mut Local) -> bool {
+    use c01::layout;
+    let Some(rd) = layout::rdata_layout(rtype, wire) else { return false };
+    let (tree, rd_at) = layout::message_tree(rtype, rd);
+    let mut t = Tally::default();
+    let mut msg: Vec<u8> = vec![];
+    let mut rdata: Vec<u8> = vec![];
+    // the owner name starts after header, question name (2 labels + root) and QTYPE/QCLASS
+    let owner_at = 5;
+    let n = layout::resize_family(&tree, rd_at, |tr, _what| {
+        msg.clear();
+        if !layout::serialize(tr, &mut msg) || msg.len() > 65535 {
+            return;
+        }
+        for e in [Entry::Message, Entry::Request, Entry::FrontDoor, Entry::TsigTbs] {
+            judge(e, &msg, Some("work-bound:message"), false, &mut t, l, &|| byte_case(e, &msg));
+        }
+        let mut off = vec![];
+        layout::serialize(&tr[..owner_at], &mut off);
+        let e = Entry::Record { off: off.len() as u16 };
+        judge(e, &msg, Some("work-bound:record"), false, &mut t, l, &|| byte_case(e, &msg));
+        if let layout::Node::Len16(c) = &tr[rd_at] {
+            rdata.clear();
+            if layout::serialize(c, &mut rdata) {
+                let e = Entry::Rdata { rtype, off: 0 };
+                judge(e, &rdata, Some("work-bound:rdata"), false, &mut t, l, &|| byte_case(e, &rdata));
+            }
+        }
+    });
+    if l.samples.len() < 4 {
+        l.sample(json!({"family": "f6", "seed": tag, "fields": layout::fields(&tree).len(), "resized_trees": n}));
+    }
+    *l.outcomes.entry("f6:resized-trees".into()).or_insert(0) += n;
+    t.flush("f6", "resize", l);
+    true
+}
+
+// ------------------------------------------------------------------------------------------
 // family 4: growth
 
 const GROWTH_ENTRIES: [Entry; 5] = [Entry::Message, Entry::Request, Entry::Response, Entry::TsigTbs, Entry::FrontDoor];
@@ -517,6 +559,12 @@ fn replay(ctx: &Ctx, case: &Value) {
                         run_win_item(it, l);
                     }
                 }
+                "resize" if f.len() == 3 => {
+                    let rseeds = seeds::rdata_seeds(&rdata_alphabet(f[1] == "true"));
+                    if let Some((tag, t, w)) = f[2].parse::<usize>().ok().and_then(|i| rseeds.get(i)) {
+                        run_resize_item(tag, *t, w, l);
+                    }
+                }
                 "growth" if f.len() == 4 => {
                     let fam: &str = families::GROWTH_FAMILIES.iter().find(|x| **x == f[1]).copied().unwrap_or("pointer-chain");
                     run_growth(fam, f[2] == "true", Entry::parse(f[3]).unwrap_or(Entry::Message), l);
@@ -551,7 +599,7 @@ fn main() {
     }
 
     ctx.set_rule(
-        "E-ENUM, six families, every element decoded by the real entry points (Message::from_vec, Request::from_bytes, the \
+        "E-ENUM, seven families, every element decoded by the real entry points (Message::from_vec, Request::from_bytes, the \
          server's front door ServerContext::handle_request via the verif hook with a probing RequestHandler, \
          DnsResponse::from_buffer, signed_bitmessage_to_buf, Record::read, Name::read, RData::read; the deferred CAA value \
          parsers run on every decoded CAA record). \
@@ -566,7 +614,13 @@ fn main() {
          RDATA / names covering every RData variant, EDNS, TSIG, compression; the front door gets the query-shaped twin (QR \
          cleared) of every message seed. f5: ALL 65,536 values of every 16-bit window of one-record messages around the RFC \
          RDATA of the alphabet, OPT and TSIG (quick: first entry per type, record fixed fields + 24 RDATA octets; thorough: \
-         every entry, every window from the flags word on, plus the UPDATE twin). f4: 22 growth families for n = 1..64, 128, \
+         every entry, every window from the flags word on, plus the UPDATE twin). f6: CONSISTENT RESIZES: every RDATA seed (every alphabet entry, OPT, TSIG) is described as a tree of \
+         length-prefixed fields (labels, character-strings, CAA tag, NSEC3/NSEC3PARAM salt and hash, bitmap windows, SvcParam \
+         values and alpn ids, EDNS options, TSIG MAC / other data, trailing blobs, RDLENGTH; question and owner labels); EVERY \
+         field is set to EVERY length of its width (0..255; 16-bit: 0..300, 511, 512, the largest that fits 65,535 octets) with \
+         its content truncated or padded (00 / ff / 'a') and all enclosing lengths recomputed, and every PAIR of RDATA fields \
+         to {0,1,39,40,63,64,255}^2; each tree is decoded as message, request, front door, TSIG parse, record and bare RDATA. \
+         f4: 22 growth families for n = 1..64, 128, \
          256, ... up to the largest n that fits 65,535 octets, through message / request / front door / response / TSIG entry. \
          Oracle: returns (no panic); decoder ticks <= 256*len+4096 and (f4) ticks/len at any size <= 4x the maximum seen up \
          to 4 KiB; every decoded Name (incl. the issuer name of a CAA value) <= 255 octets, labels <= 63 (from the label \
@@ -639,6 +693,21 @@ fn main() {
         run_win_item(&witems[i as usize], l)
     });
 
+    // family 6: consistent resizes
+    let rseeds = seeds::rdata_seeds(&entries);
+    ctx.set("f6_seeds", json!(rseeds.len()));
+    ctx.par_run(rseeds.len() as u64, 1, |i, l| {
+        ctx.watch(l.worker, || format!("resize|{thorough}|{i}"));
+        let (tag, t, w) = &rseeds[i as usize];
+        if !run_resize_item(tag, *t, w, l) {
+            l.outcome("machinery:layout-table-does-not-fit-seed");
+            eprintln!("layout table does not fit seed {tag}");
+        }
+    });
+    if ctx.outcome_count("machinery:layout-table-does-not-fit-seed") > 0 {
+        ctx.machinery_failure("f6: a layout table does not describe its seed RDATA");
+    }
+
     // family 4
     let mut gitems: Vec<(&'static str, bool, Entry)> = vec![];
     for f in families::GROWTH_FAMILIES.iter() {
@@ -690,7 +759,7 @@ fn main() {
         "f2:message:accepted", "f2:request:accepted", "f2:rdata:accepted", "f2:name:accepted", "f3:message:accepted", "f3:request:accepted",
         "f3:tsig-tbs:accepted", "f3:rdata:accepted", "f3:record:accepted", "f4:message:accepted", "f3:message:rejected",
         "f3:seed-accepted", "f3:frontdoor:accepted", "f3:frontdoor:rejected", "f2:frontdoor:accepted", "f4:frontdoor:accepted",
-        "f1b:rdata:accepted", "f1b:rdata:rejected", "f5:message:accepted", "f5:message:rejected", "err:frontdoor:FormErr",
+        "f6:resize:accepted", "f6:resize:rejected", "f1b:rdata:accepted", "f1b:rdata:rejected", "f5:message:accepted", "f5:message:rejected", "err:frontdoor:FormErr",
         "err:frontdoor:NotImp", "err:frontdoor:no-response",
     ] {
         if ctx.outcome_count(k) == 0 {
